@@ -96,6 +96,18 @@ func aliasesGlobal(e *Expr) bool {
 				return true
 			}
 		}
+	case "call":
+		// a plain function (no receiver) that returns a pointer may hand back one of its pointer arguments
+		// (math.BigMax / BigMin do): its result aliases whatever its arguments alias
+		if e.Val != nil && !strings.Contains(e.Name, ").") {
+			if _, isPtr := e.Val.Type().Underlying().(*types.Pointer); isPtr {
+				for _, a := range e.Args {
+					if a != nil && aliasesGlobal(a) {
+						return true
+					}
+				}
+			}
+		}
 	}
 	return false
 }
